@@ -129,6 +129,8 @@ struct SchedShared {
     steps: u64,
     preemptions: u64,
     hang: bool,
+    /// schedule (choices, strategy) of the execution that was stopped because of a hang
+    hang_record: Option<(Vec<u32>, String)>,
     prio: HashMap<u32, u64>,
     change_points: Vec<u64>,
     total_steps: u64,
@@ -141,7 +143,11 @@ struct CasimScheduler(Arc<StdMutex<SchedShared>>);
 impl Scheduler for CasimScheduler {
     fn new_execution(&mut self) -> Option<Schedule> {
         let mut s = self.0.lock().unwrap();
-        if s.iteration >= s.total {
+        if s.hang && s.hang_record.is_none() {
+            let rec = (s.choices.clone(), format!("{:?}", s.strategy));
+            s.hang_record = Some(rec);
+        }
+        if s.iteration >= s.total || s.hang_record.is_some() {
             return None;
         }
         let it = s.iteration;
@@ -183,10 +189,15 @@ impl Scheduler for CasimScheduler {
         let idx = (s.steps - 1) as usize;
         let fallback = if cur_runnable { cur.unwrap() } else { *ids.iter().min().unwrap() };
         let hot = HOT.with(|c| c.replace(false));
-        let choice = if s.steps > STEP_BUDGET {
+        if s.steps > STEP_BUDGET {
+            // a livelock never ends by itself (seeded change C15-e: a reader re-trying a stale blob
+            // forever): the execution is abandoned and run_case_k turns the flag into the verdict
+            // (not by a panic: the yield that got us here may sit inside an interposed libc call, and
+            // a panic cannot cross that `extern "C"` frame) - by asking shuttle to stop the execution
             s.hang = true;
-            fallback
-        } else if let Some(rp) = &s.replay {
+            return None;
+        }
+        let choice = if let Some(rp) = &s.replay {
             match rp.get(idx) {
                 Some(&c) if c != DEFAULT && ids.contains(&c) => c,
                 _ => fallback,
@@ -632,7 +643,18 @@ fn exec_cop<K: SimKey>(sh: &Shared<K>, cas: &Cas<K>, stats: Option<&OrphanStats<
         Err(p) => {
             // no call may panic; a panicking read also speaks for C17 ("no request panics")
             let props: &[&str] = if matches!(op, COp::GetRange { .. } | COp::GetSize { .. } | COp::Reader { .. }) { &["C15", "C05", "C04", "C17"] } else { &["C15", "C05", "C04"] };
-            sh.flag(fail(props, "panic", opi, format!("{label} panicked: {}", panic_msg(p))));
+            if !(p.is::<String>() || p.is::<&'static str>()) {
+                // not a panic of the operation: shuttle is tearing the execution down (deadlock or a
+                // stopped execution) and unwinds this suspended task by force - let it
+                std::panic::resume_unwind(p);
+            }
+            let msg = panic_msg(p);
+            if msg.contains("casim: hang") {
+                // the scheduler's step budget ran out while this task was inside the call
+                sh.flag(fail(&["C15"], "hang", opi, format!("{label} was still running after {STEP_BUDGET} scheduling steps of the execution (livelock: the call keeps re-trying)")));
+            } else {
+                sh.flag(fail(props, "panic", opi, format!("{label} panicked: {msg}")));
+            }
             // shuttle does not support a task that goes on after a panic (locks released while
             // unwinding are closed for good and lose mutual exclusion): the execution ends here, the
             // shuttle way. The verdict travels in PANIC_FAIL; run_case_k picks it up.
@@ -657,6 +679,7 @@ fn exec_open_hold<K: SimKey>(sh: &Shared<K>, db: &std::path::Path, wl: &Workload
         interpose::enter(|| if recover { Cas::<K>::open_with_recover(db, config.clone()).map(|(c, s)| (c, s)) } else { Cas::<K>::open(db, config.clone()).map(|c| (c, None)) })
     }));
     match r {
+        Err(p) if !(p.is::<String>() || p.is::<&'static str>()) => std::panic::resume_unwind(p), // forced unwind of a torn-down execution
         Err(p) => sh.flag(fail(&["C11"], "panic", opi, format!("{label} panicked: {}", panic_msg(p)))),
         Ok(Err(LibError::AlreadyOpened)) => {
             // the losing open must not have modified anything: its slice of the trace may only
@@ -769,6 +792,7 @@ fn build_prestate<K: SimKey>(case: &Case, spec: &ConcSpec) -> Result<PreState, S
         steps: 0,
         preemptions: 0,
         hang: false,
+        hang_record: None,
         prio: HashMap::new(),
         change_points: Vec::new(),
         total_steps: 0,
@@ -867,6 +891,7 @@ fn run_case_k<K: SimKey>(case: &Case) -> Outcome {
         steps: 0,
         preemptions: 0,
         hang: false,
+        hang_record: None,
         prio: HashMap::new(),
         change_points: Vec::new(),
         total_steps: 0,
@@ -912,6 +937,9 @@ fn run_case_k<K: SimKey>(case: &Case) -> Outcome {
             } else if res.foreign.is_none() {
                 res.foreign = Some(f);
             }
+        } else if msg.contains("casim: hang") || s.hang {
+            res.violation = Some((fail(&["C15"], "hang", 0, format!("execution exceeded {STEP_BUDGET} scheduling steps without finishing (livelock: some call keeps re-trying)")), s.choices.clone(), format!("{:?}", s.strategy)));
+            res.executions += 1;
         } else if msg.contains("deadlock") {
             res.violation = Some((
                 fail(&["C15"], "deadlock", 0, format!("no runnable task while some are unfinished: {}", msg.lines().next().unwrap_or(""))),
@@ -921,6 +949,25 @@ fn run_case_k<K: SimKey>(case: &Case) -> Outcome {
             res.executions += 1;
         } else {
             res.harness_error = Some(format!("execution panicked outside any operation: {msg}"));
+        }
+    }
+    {
+        // an execution that was stopped because it exceeded the step budget (its main task never
+        // reached the end of one_execution, so nothing was recorded there)
+        let s = shared.lock().unwrap();
+        let rec = s.hang_record.clone().or_else(|| if s.hang { Some((s.choices.clone(), format!("{:?}", s.strategy))) } else { None });
+        if let Some((choices, strat)) = rec {
+            let _ = interpose::uninstall();
+            interpose::set_active(false);
+            res.executions += 1;
+            let f = fail(&["C15"], "hang", 0, format!("an execution was still running after {STEP_BUDGET} scheduling steps (livelock: some call keeps re-trying); blocked/unfinished tasks were abandoned"));
+            if is_own(&case.property, &f) {
+                if res.violation.is_none() {
+                    res.violation = Some((f, choices, strat));
+                }
+            } else if res.foreign.is_none() && res.violation.is_none() {
+                res.foreign = Some(f);
+            }
         }
     }
     let s = shared.lock().unwrap();
@@ -1153,6 +1200,29 @@ fn final_checks<K: SimKey>(sh: &Arc<Shared<K>>, cas: &Cas<K>, spec: &ConcSpec, p
             }
             Ok(None) => sh.flag(fail(&["C05"], "final-inconsistent", 0, format!("key {k:?} listed by iter() but get() says absent"))),
             Err(e) => sh.flag(fail(&["C04"], "final-dangling", 0, format!("at quiescence key {k:?} is in the index but its blob cannot be read: {e}"))),
+        }
+    }
+    // C20 / C02 at quiescence: decoded by the independent reader, snapshot (+) log equal the index the
+    // API shows - whatever checkpoints, roll-overs and commits interleaved before (a checkpoint that
+    // slips between an operation's log append and its index update breaks exactly this)
+    if !sh.op_errors.load(std::sync::atomic::Ordering::Relaxed) {
+        match with_sim(|s| crate::monitors::parse_log(&s.disk)) {
+            Ok(pl) => {
+                let want: BTreeMap<Vec<u8>, ([u8; 32], u64)> = items.iter().map(|(k, h, sz)| (k.kb(), (*h, *sz))).collect();
+                let got: BTreeMap<Vec<u8>, ([u8; 32], u64)> = pl.logged.iter().map(|(k, v)| (k.clone(), *v)).collect();
+                if got != want {
+                    let only_log: Vec<String> = got.keys().filter(|k| !want.contains_key(*k)).map(hex::encode).collect();
+                    let only_idx: Vec<String> = want.keys().filter(|k| !got.contains_key(*k)).map(hex::encode).collect();
+                    let differ: Vec<String> = got.iter().filter(|(k, v)| want.get(*k).is_some_and(|w| w != *v)).map(|(k, _)| hex::encode(k)).collect();
+                    sh.flag(fail(
+                        &["C20", "C02"],
+                        "final-logged-state",
+                        0,
+                        format!("at quiescence snapshot (+) log, decoded independently, differ from the index (a restart would change the store): keys only on disk {only_log:?}, keys only in the index {only_idx:?}, keys with another value {differ:?}; snapshot version {:?}, highest logged version {}", pl.snapshot.as_ref().map(|s| s.version), pl.max_version),
+                    ));
+                }
+            }
+            Err(e) => sh.flag(fail(&["C20"], "final-log-undecodable", 0, format!("at quiescence: {e}"))),
         }
     }
     // linearizability of the recorded history, including the final state
